@@ -174,3 +174,23 @@ func PCRTemplates(r *rand.Rand, n int) (fasta []byte, fwd, rev string) {
 	}
 	return []byte(sb.String()), fwd, rev
 }
+
+// PCRGenome renders a few long templates (100-140 kb) carrying a product of `barcode` bases every
+// 300-700 bases, for the --fragmented mode of obipcr (the templates are cut into overlapping
+// pieces handled by different workers; some products fall into the overlaps).
+func PCRGenome(r *rand.Rand, nseq, barcode int) (fasta []byte, fwd, rev string) {
+	fwd, rev = "ggtaccacgattcagac", "ccatgactgatcgtaag"
+	var sb strings.Builder
+	for i := 0; i < nseq; i++ {
+		var seq []byte
+		target := 100000 + r.Intn(40000)
+		for len(seq) < target {
+			seq = append(seq, DNA(r, 300+r.Intn(400))...)
+			seq = append(seq, fwd...)
+			seq = append(seq, DNA(r, max(1, barcode-r.Intn(3)))...)
+			seq = append(seq, rc([]byte(rev))...)
+		}
+		fmt.Fprintf(&sb, ">chr%d\n%s\n", i, seq)
+	}
+	return []byte(sb.String()), fwd, rev
+}
